@@ -89,6 +89,7 @@ def run(ctx):
     # ---------------------------------------------------------------- value-returning members do not hand out their own storage
     n = check_fresh(ctx, prog)
     ctx.floor('R-SHARE value-returning members', n, 10)
+    check_rebind(ctx, prog)
 
     # ---------------------------------------------------------------- tail moves cover exactly the old tail
     n = check_tailmove(ctx, prog)
@@ -874,3 +875,40 @@ def check_set_store(ctx, f, e, role, where, inst, nvars):
     okd = len(dest) >= 1 and all(polarity_ok(c, False) for c in dest)
     ctx.check(okc and okd, 'C01.lifetime', f['pq'], role, where, 'constructs iff new length > old, destroys iff new length < old',
               '%s stores a new element count but does not construct the added tail exactly when growing and destroy the removed tail exactly when shrinking (construct ok=%s, destroy ok=%s) in %s' % (name, okc, okd, inst))
+
+
+def check_rebind(ctx, prog):
+    """C01.rebind: an operation that changes the array changes it for every live handle - the storage is what handles share.
+    Only the assignment operators, `dup()` (whose documented purpose is to detach) and constructors may attach this handle to
+    other storage; a mutator that does `*this = <another array>` (or takes the `_a` of another Array object) leaves the other
+    handles with the old contents and silently separates them.  Who-may-call rule over every Array member."""
+    allowed = ('operator=', 'dup', 'Array', '~Array', 'swap')
+    n = 0
+    seen = set()
+    for f in prog.functions:
+        if f.get('clsp') != 'asl::Array' or not f.get('body') or f.get('implicit'):
+            continue
+        key = (f.get('pq'), f.get('sig', '').split('<')[0], f.get('line'))
+        sites = []
+        for e in fn_exprs(f):
+            if e.get('k') == 'call' and e.get('pq') == 'asl::Array::operator=' and e.get('obj') is not None and (e.get('sig') or '').startswith('(const asl::Array<'):
+                o = strip_lv(e['obj'])
+                while o.get('k') in ('paren', 'cast'):
+                    o = strip_lv(o['e'])
+                if o.get('k') == 'un' and o.get('op') == '*':
+                    o = strip_lv(o['e'])
+                if o.get('k') == 'this':
+                    sites.append(e)
+            if e.get('k') == 'bin' and e.get('op') == '=' and strip_lv(e['x']).get('k') == 'mem' and strip_lv(e['x']).get('f') == '_a' and strip_lv(strip_lv(e['x']).get('b') or {'k': 'this'}).get('k') == 'this':
+                y = strip(e['y'])
+                if y.get('k') == 'mem' and y.get('f') == '_a' and strip_lv(y.get('b') or {'k': 'this'}).get('k') != 'this':
+                    sites.append(e)
+        if not sites or key in seen:
+            continue
+        seen.add(key)
+        n += 1
+        ctx.analysed(f)
+        role = '%s%s:only assignment / dup / constructors re-bind the handle' % (f['n'], f['sig'].split('<')[0])
+        ctx.check(f['n'] in allowed, 'C01.rebind', f['pq'], role, fwhere(f, sites[0].get('l')), '`%s` in %s' % (pe(sites[0])[:50], f['n']),
+                  '%s attaches this handle to other storage (`%s`): every other live handle on the array keeps the old contents and the handles are silently separated, although the operation is documented to change the array' % (f['n'], pe(sites[0])[:60]))
+    ctx.floor('C01.rebind re-binding members', n, 2)
